@@ -786,13 +786,22 @@ def install(eng):
     @reg('cls:BinaryIO.seek')
     def _f_seek(eng, st, args, kw, node):
         f = _fobj(st, args[0])
-        if len(args) > 2:
-            raise Unsupported('seek with whence')
-        st = eng.fork_exc(st, num_cmp('>=', args[1], 0), 'ValueError', node)
+        whence = args[2] if len(args) > 2 else kw.get('whence', 0)
+        if not isinstance(whence, int):
+            raise Unsupported('seek with a symbolic whence')
+        if whence == 0:
+            target = args[1]
+        elif whence == 1:
+            target = simp(num_binop('+', f['pos'], args[1], Pending()))       # os.SEEK_CUR
+        elif whence == 2:
+            target = simp(num_binop('+', f['data'].length, args[1], Pending()))    # os.SEEK_END
+        else:
+            raise Unsupported('seek whence %r' % (whence,))
+        st = eng.fork_exc(st, num_cmp('>=', target, 0), 'ValueError', node)
         if st.dead:
             return []
-        _fobj(st, args[0])['pos'] = args[1]
-        return one(st, args[1])
+        _fobj(st, args[0])['pos'] = target
+        return one(st, target)
 
     @reg('cls:BinaryIO.write')
     def _f_write(eng, st, args, kw, node):
@@ -863,6 +872,14 @@ def install(eng):
         if args and isinstance(args[0], TextVal):
             return one(st, args[0])
         raise Unsupported('io.StringIO of %r' % (args[:1],))
+
+    _MARK = z3.Function('inst_mark', z3.IntSort(), z3.IntSort())
+
+    @reg('mark')
+    def _mark(eng, st, args, kw, node):
+        # an uninterpreted marker that occurs nowhere else: a quantifier whose only solver pattern is mark(x) is never
+        # instantiated by z3's e-matching (no matching loops); its instances come from the deterministic pre-instantiation
+        return one(st, _MARK(to_int(args[0])))
 
     @reg('text_pred')
     def _text_pred(eng, st, args, kw, node):
